@@ -216,3 +216,37 @@ CHECKS["C19"] = dict(
           "states are not expanded. distinct_nontrivial = non-empty states with >= 2 elements."),
     assumptions=["reference model engine/view_model.hpp with per-dimension index base", "member_cast/scale on re-based layouts asserts offset==0 (TODO in the library): not generated", "g++ 12 -O0 -DNDEBUG ASan+UBSan"],
 )
+
+
+def c20_jobs(tier):
+    jobs = []
+    # (b) invalid uses die by a library assertion first
+    jobs += ranks_jobs("deathmc", "san", tier, shards_thorough=2)
+    # (a) the valid programs of C01..C07 in the three build configurations: assertions on (no sanitizer), -DNDEBUG, -DBOOST_MULTI_ASSERT_DISABLE.
+    for cfg in ("dbg", "rel", "noassert"):
+        ranks = (2, 3) if tier == "quick" else (1, 2, 3, 4)
+        jobs += ranks_jobs("viewmc", cfg, tier, ranks=ranks, extra_args=["--depth=%d" % (2 if tier == "quick" else 3)], shards_thorough=1)
+        jobs += ranks_jobs("itermc", cfg, tier, ranks=(2,) if tier == "quick" else (1, 2, 3), extra_args=["--depth=%d" % (1 if tier == "quick" else 2)], shards_thorough=1)
+        jobs += ranks_jobs("assignmc", cfg, tier, ranks=(2,) if tier == "quick" else (1, 2, 3), extra_args=["--depth=1"], shards_thorough=1)
+        for d, e in ((2, 0),) if tier == "quick" else ((1, 0), (2, 0), (2, 1), (3, 0)):
+            jobs.append(Job("histmc", cfg=cfg, defs=["-DHM_D=%d" % d, "-DHM_ELEM=%d" % e], args=["--tier=" + tier, "--prop=all", "--depth=2"]))
+        for d in ((2, 3) if tier == "quick" else (0, 1, 2, 3, 4)):
+            jobs.append(Job("cmpmc", cfg=cfg, defs=["-DCMP_D=%d" % d], args=["--tier=quick"]))
+        for k in ((2,) if tier == "quick" else (0, 1, 2)):
+            jobs.append(Job("algomc", cfg=cfg, defs=["-DALG_KIND=%d" % k], args=["--tier=quick"]))
+    return jobs
+
+
+CHECKS["C20"] = dict(
+    title="debug contracts", level="model_checking", engine="E1",
+    claim=("(b) At every E1 view state (depth 1 quick / 2 thorough, D=1..4 roots on exactly-sized heap storage) every out-of-range index (first-1 and last in each dimension, through [] and through call syntax, followed "
+           "by a READ) and every assignment from a source whose extents differ in one dimension or are permuted with equal count (5 assignment forms) is executed in a forked child of the assertion-enabled ASan build and must "
+           "die by an assertion located in include/boost/multi with no sanitizer report before it. (a) The explorers of C01-C07 are re-run in three build configurations (assertions on, -DNDEBUG, -DBOOST_MULTI_ASSERT_DISABLE): "
+           "any library assertion on those valid programs kills the explorer (reported with the trace), and every configuration must agree with the same configuration-independent reference model, hence with each other."),
+    jobs=c20_jobs,
+    ignore_keys=["*|does-not-compile", "completeness|*"],   # ill-formed expressions are C07's / C16's findings, not a debug-contract matter
+    rule=("E1 breadth-first search supplies the states; per state 4*D index probes and (2*D+2) x 5 assignment probes, one forked child each; outcome classes: assertion (required) | survived | sanitizer-first | other-signal | "
+          "foreign-assertion. For (a): states/transitions of the re-run explorers are added to the totals. distinct_nontrivial = non-empty states probed."),
+    assumptions=["assigning flat elements() ranges of equal length is valid whatever the extents (only a different element count is probed there)", "index bases of empty dimensions are unobservable: empty views are not probed",
+                 "other contracts (partitioned/chunked with a non-divisor, dropped/taked beyond size, strided with a non-divisor) are not promised by the property and not decided"],
+)
